@@ -63,7 +63,7 @@ func timerMain(args []string) {
 				id++
 				myid := id
 				// target phase within the period and delay before running the command
-				target := time.Duration(int64(d) * int64(ph) / int64(phases)).Round(0) + time.Duration(r.intn(int(d)/phases+1))
+				target := time.Duration(int64(d)*int64(ph)/int64(phases)).Round(0) + time.Duration(r.intn(int(d)/phases+1))
 				preRun := time.Duration(r.intn(int(d)*3/2 + 1))
 				if r.chance(1, 4) {
 					preRun = 0
